@@ -25,35 +25,39 @@ func (p vC09Param) kind() string {
 	return p.typ
 }
 
-func (p vC09Param) generic() bool { return p.typ == "T" || p.typ == "TListe" }
+func (p vC09Param) generic() bool { return p.typ == "T" || p.typ == "TListe" || p.typ == "Tnum" }
 
 type vC09Decl struct {
 	name   string
 	long   bool        // "stufe <1> plus <2>" instead of "stufe <1>"
 	params []vC09Param // in the order of the placeholders of the alias
+	body   string      // statement of the body (default: return the declaration's number)
 }
 
 var vC09Decls = []vC09Decl{
-	{"fA", false, []vC09Param{{name: "a"}}},
-	{"fB", false, []vC09Param{{name: "a", ref: true}}},
-	{"fD", false, []vC09Param{{name: "a", typ: "text"}}},
-	{"fC", true, []vC09Param{{name: "a"}, {name: "b"}}},
-	{"fE", true, []vC09Param{{name: "a", ref: true}, {name: "b", typ: "text"}}},
-	{"fG", false, []vC09Param{{name: "a", typ: "T"}}},
+	{name: "fA", long: false, params: []vC09Param{{name: "a"}}},
+	{name: "fB", long: false, params: []vC09Param{{name: "a", ref: true}}},
+	{name: "fD", long: false, params: []vC09Param{{name: "a", typ: "text"}}},
+	{name: "fC", long: true, params: []vC09Param{{name: "a"}, {name: "b"}}},
+	{name: "fE", long: true, params: []vC09Param{{name: "a", ref: true}, {name: "b", typ: "text"}}},
+	{name: "fG", long: false, params: []vC09Param{{name: "a", typ: "T"}}},
 	// placeholders in the opposite order of the parameter list: binding is by name
-	{"fF", true, []vC09Param{{name: "b", typ: "text"}, {name: "a"}}},
+	{name: "fF", long: true, params: []vC09Param{{name: "b", typ: "text"}, {name: "a"}}},
 	// a type definition over Zahl is another type than Zahl
-	{"fM", false, []vC09Param{{name: "a", typ: "meter"}}},
+	{name: "fM", long: false, params: []vC09Param{{name: "a", typ: "meter"}}},
 	// a list of the type parameter is generic, a Zahlen Liste is not
-	{"fL", false, []vC09Param{{name: "a", typ: "TListe"}}},
-	{"fZ", false, []vC09Param{{name: "a", typ: "zliste"}}},
+	{name: "fL", params: []vC09Param{{name: "a", typ: "TListe"}}},
+	{name: "fZ", params: []vC09Param{{name: "a", typ: "zliste"}}},
+	// a generic function whose body only type-checks for T = Zahl: for any other argument type the
+	// instantiation fails and the candidate is passed over
+	{name: "fH", long: true, params: []vC09Param{{name: "a", typ: "Tnum"}, {name: "b"}}, body: "Gib a plus b zurück."},
 }
 
 func (d vC09Decl) source(id int) string {
 	var sb strings.Builder
 	typ := func(p vC09Param) string {
 		switch {
-		case p.kind() == "T":
+		case p.kind() == "T" || p.kind() == "Tnum":
 			return "T"
 		case p.kind() == "TListe":
 			return "T Liste"
@@ -84,7 +88,11 @@ func (d vC09Decl) source(id int) string {
 	} else {
 		sb.WriteString("Die " + kind + " " + d.name + " mit den Parametern " + ps[0].name + " und " + ps[1].name + " vom Typ " + typ(ps[0]) + " und " + typ(ps[1]) + ", gibt eine Zahl zurück, macht:\n")
 	}
-	sb.WriteString("\tGib " + string(rune('0'+id)) + " zurück.\nUnd kann so benutzt werden:\n")
+	body := d.body
+	if body == "" {
+		body = "Gib " + string(rune('0'+id%10)) + " zurück."
+	}
+	sb.WriteString("\t" + body + "\nUnd kann so benutzt werden:\n")
 	if d.long {
 		sb.WriteString("\t\"stufe <" + d.params[0].name + "> plus <" + d.params[1].name + ">\"\n\n")
 	} else {
@@ -121,6 +129,10 @@ func (d vC09Decl) fits(args []vC09Form) bool {
 		}
 		switch p.kind() {
 		case "T":
+		case "Tnum":
+			if a.typ != "zahl" {
+				return false
+			}
 		case "TListe":
 			if a.typ != "zliste" {
 				return false
@@ -170,7 +182,16 @@ func vC09FindCall(e ast.Expression) *ast.FuncCall {
 	return nil
 }
 
+// vC09LastRun: what the frontend answered for the program of the last vC09CallSites call
+// (used by the C07 harness that looks at the flags instead of the resolution)
+var vC09LastRun struct {
+	parsed    bool
+	faulty    bool
+	delivered int
+}
+
 func vC09CallSites(maxDecls int) {
+	vC09LastRun.parsed = false
 	var present []int
 	var sb strings.Builder
 	sb.WriteString("Wir definieren einen Meter als eine Zahl.\n\n")
@@ -196,16 +217,20 @@ func vC09CallSites(maxDecls int) {
 		call += " plus " + y.src
 	}
 	sb.WriteString(call + ".\n")
-	errorsBefore := 0
+	errorsBefore, delivered := 0, 0
 	mod, err := Parse(Options{FileName: "x.ddp", Source: []byte(sb.String()), ErrorHandler: func(e ddperror.Error) {
-		if e.Level == ddperror.LEVEL_ERROR && int(e.Range.Start.Line) <= declLines {
-			errorsBefore++
+		if e.Level == ddperror.LEVEL_ERROR {
+			delivered++
+			if int(e.Range.Start.Line) <= declLines {
+				errorsBefore++
+			}
 		}
 	}})
 	if err != nil || mod == nil || mod.Ast == nil {
 		rt.Assert(false, "the frontend returns a module")
 		return
 	}
+	vC09LastRun.parsed, vC09LastRun.faulty, vC09LastRun.delivered = true, mod.Ast.Faulty, delivered
 	if errorsBefore > 0 {
 		return // this population is not a valid set of declarations (e.g. the same alias twice)
 	}
